@@ -865,3 +865,92 @@ V('handle-shutdown-order', 'C08', 'breaking',
         refs_exist = any(""", """        self.collect_garbage()
         refs_exist = any(""")],
   'R-PAIR/shutdown', 'terminal count never released before the check')
+
+# -------------------------------------------------------------------- C17
+V('raw-addvar-write-first', ['C17', 'C14'], 'breaking',
+  [(B, """        # level already used ?
+        level = self._next_free_level(var, level)
+        # update the mappings between
+        # vars and levels
+        self.vars[var] = level""", """        # update the mappings between
+        # vars and levels
+        self.vars[var] = level
+        # level already used ?
+        level = self._next_free_level(var, level)""")],
+  'R-RAW/raise-after-write/dd.bdd.BDD.add_var', 'name recorded before the level check')
+V('raw-undeclare-interleaved', ['C17', 'C14'], 'breaking',
+  [(B, """        # remove only unused variables
+        for var in vrs:
+            level = self.level_of_var(var)
+            if level in full_levels:
+                raise ValueError(""", """        # remove only unused variables
+        for var in vrs:
+            level = self.level_of_var(var)
+            self._level_to_var.pop(level)
+            if level in full_levels:
+                raise ValueError(""")],
+  'R-RAW/raise-after-write/dd.bdd.BDD.undeclare_vars', 'first variable removed before the second is checked')
+V('raw-find-or-add-check-late', ['C17'], 'breaking',
+  [(B, """        if abs(w) not in self._succ:
+            raise ValueError(
+                f'argument: {w = } is not '
+                'a reference to an existing BDD node')
+        # ensure canonicity of complemented edges""", """        # ensure canonicity of complemented edges"""),
+   (B, """        self._ref[u] = 0
+        self._min_free = self._next_free_int(u)""", """        self._ref[u] = 0
+        if abs(w) not in self._succ:
+            raise ValueError(
+                f'argument: {w = } is not '
+                'a reference to an existing BDD node')
+        self._min_free = self._next_free_int(u)""")],
+  'R-RAW/', 'child checked after the node was inserted')
+V('raw-guard-var', 'C17', 'breaking',
+  [(B, """        if var not in self.vars:
+            raise ValueError(
+                f'undeclared variable "{var}", '
+                'the declared variables are:\\n'
+                f' {self.vars}')
+        j = self.vars[var]""", """        j = self.vars[var]""")],
+  'R-RAW/guard-missing/dd.bdd.BDD.var', 'KeyError instead of the documented rejection (guard gone)')
+V('raw-guard-autoref-ite', 'C17', 'breaking',
+  [(A, """        if v not in self:
+            raise ValueError(v)
+        r = self._bdd.ite(g.node, u.node, v.node)""", """        r = self._bdd.ite(g.node, u.node, v.node)""")],
+  'R-RAW/guard-missing/dd.autoref.BDD.ite', 'foreign else-operand accepted')
+V('raw-swap-validate-late', ['C17', 'C07'], 'breaking',
+  [(B, """        if abs(x - y) != 1:
+            raise ValueError(
+                (x, y))
+        # count nodes
+        oldsize = len(self._succ)""", """        # count nodes
+        oldsize = len(self._succ)"""),
+   (B, """        # move level y up
+        for u, (v, w) in levels[y].items():""", """        if abs(x - y) != 1:
+            raise ValueError(
+                (x, y))
+        # move level y up
+        for u, (v, w) in levels[y].items():""")],
+  'R-RAW/', 'adjacency checked after the unique table was emptied')
+V('raw-temporaries-extra-incref', ['C17', 'C12'], 'breaking',
+  [('dd/_copy.py', """    if str(k) in cache:
+        return
+    low = _node_from_int(low_id, bdd, cache)""", """    if str(k) in cache:
+        bdd.incref(bdd._add_int(cache[str(k)]))
+        return
+    low = _node_from_int(low_id, bdd, cache)""")],
+  'R-PAIR/temporaries/dd._copy._make_node', 'duplicate line takes a second count')
+V('raw-parser-no-reset', 'C17', 'breaking',
+  [('dd/_parser.py', """        u = super().parse(expression)
+        self._reset_state()
+        return u""", """        u = super().parse(expression)
+        return u""")],
+  'R-PAIR/parser-stack/dd._parser._Translator.parse', 'operands stay on the LR stack')
+V('raw-benign-finally', 'C17', 'benign',
+  [('dd/_parser.py', """        u = super().parse(expression)
+        self._reset_state()
+        return u""", """        try:
+            u = super().parse(expression)
+        finally:
+            self._reset_state()
+        return u""")],
+  None, 'reset moved into finally')
